@@ -19,6 +19,67 @@ add("C03", "A-product", "DESIGN.md 2/C03",
     "This is a coverage statement over the alphabet, not a sample; continuous inputs off the alphabet are not covered.",
     "Trusts numpy linear algebra and the short reference model ref/drex_ref.py (only for the energy scale and the growth-sign clause).")
 
+
+add("C01", "B-history", "DESIGN.md 2/C01",
+    "explicit-state BFS over update histories on real Mineral objects (all sequences to a depth), invariant on every state",
+    "Every sequence of <=2 (quick) / <=3 (thorough) update letters (6 flows x 2 strain increments) from every root (fabric x accepted regime x <=1 deviation "
+    "over texture, volumes, grain count, parameters), plus long chains of 1..100 updates and all <=3-part compositions of a span, is executed on the real "
+    "Mineral.update_orientations; after every transition the new snapshot is checked against the stated validity invariant, and earlier snapshots are content-hashed "
+    "(append-only). Coverage statement over histories up to the depth bound; n_grains <= 8 in histories.",
+    "Trusts numpy; strain accounting by quadrature of the largest |principal strain rate|.")
+add("C02", "A-product", "DESIGN.md 2/C02",
+    "bounded exhaustive enumeration of the input product space against a reference model (compiled and interpreted solver)",
+    "Every point of fabric x regime x gradient alphabet x volume letters x parameter settings x the orbit-closed orientation alphabet is evaluated on "
+    "pydrex.core.derivatives and compared grain by grain with a tensor-form reference model of the published D-Rex equations; the default slice and a full-parameter "
+    "core are repeated on the interpreted source (NUMBA_DISABLE_JIT=1 child processes).",
+    "Trusts ref/drex_ref.py (~60 lines, written from the papers) and numpy einsum; tolerance law 1e-11 + 1e-13/activity.")
+add("C04", "A-product + B-history(twin)", "DESIGN.md 2/C04",
+    "exhaustive product x all frame rotations / two-fold assignments (rates); BFS over update histories with a lock-step transformed twin (textures)",
+    "Rates: every case of the product is re-evaluated in every frame of the 27-letter frame alphabet and for all 64 two-fold assignments of 3-grain sets. "
+    "Textures: every update sequence to depth 2/3 is executed in lock-step on a mineral and on its rotated-frame or lattice-equivalent twin and compared after every update "
+    "(bisimulation along every explored path); grains touching the discontinuous grain-boundary-sliding threshold or the zero-slip guard are gated and counted.",
+    "Observation of the apply_gbs / derivatives seams is used only to gate comparisons, never to decide; ODE bound from the statement.")
+add("C10", "A-product", "DESIGN.md 2/C10",
+    "bounded exhaustive enumeration of assemblages x orderings x textures x frames against a reference model",
+    "All assemblages, every ordering of minerals and phases, fraction letters, texture/volume letters, snapshot counts, stiffness sets and frame rotations are "
+    "run through pydrex.voigt_averages and compared with an einsum reference; mismatch cases must raise ValueError.",
+    "Trusts ref/voigt_ref.py and numpy einsum.")
+add("C11", "A-product", "DESIGN.md 2/C11",
+    "basis-exhaustive enumeration of linear maps (all 81/36 index tuples, 21 unit matrices, all pairwise sums) and all ordered rotation pairs",
+    "All maps in pydrex.tensors are linear, so they are decided on a basis plus sums; rotations compose over all ordered pairs of the frame alphabet; projectors are built column by column; "
+    "polar decomposition and invariants over a sharp matrix alphabet incl. singular letters.",
+    "Trusts ref/tensors_ref.py and numpy.linalg.")
+add("C12", "A-product", "DESIGN.md 2/C12",
+    "bounded exhaustive enumeration of tensors x frame rotations with closed-form and metamorphic oracles",
+    "Built-in tensors, a 2^9 grid of positive-definite orthorhombic tensors and Voigt averages of texture letters are decomposed in every frame of the alphabet; "
+    "K, G, percent anisotropy against closed forms, frame independence (gated on eigenvalue gaps as the statement allows), orthorhombic identities.",
+    "Trusts ref/elastic_ref.py; calls a NaN-initialising copy of elasticity_components so that unassigned outputs are visible.")
+add("C13", "A-product", "DESIGN.md 2/C13",
+    "bounded exhaustive enumeration of orientation sets x axes x frames x permutations x relabellings (all n!, all 4^n for small n)",
+    "Every orientation-set letter is crossed with every frame rotation; inside each case all permutations (n<=4) and all two-fold relabellings (n<=3) are enumerated; "
+    "finite_strain over F letters x the full left x right rotation product.",
+    "Trusts numpy eigh / math.fsum reference scatter matrices.")
+add("C15", "A-product + C-environment", "DESIGN.md 2/C15",
+    "exhaustive enumeration of shapes/volume letters with the random source owned by the harness (all answers of a controlled generator incl. edge values)",
+    "With np.random.default_rng replaced by a prescribed-variates generator, the sampling law becomes an exact counting statement on midpoint grids and the zero-volume clause a statement over every legal variate "
+    "(0.0, 1-2^-53, every cumulative boundary and its float neighbours); all malformed shape combinations of rank 1..5 are enumerated.",
+    "If the RNG seam is not observable the controlled clauses are skipped (reported), never failed.")
+add("C17", "B-history", "DESIGN.md 2/C17",
+    "explicit-state exploration of save/load operation sequences on a real NPZ archive against a dict reference model (all save orders, all load orders)",
+    "Sets of 1..4 (thorough ..9) minerals are saved under colliding postfix letters in every order and loaded in every order through both loaders; after every operation the "
+    "archive key set and every recovered snapshot (bitwise) are compared with the reference; corrupt states and non-NPZ names must be rejected without writing.",
+    "Trusts numpy.load for reading back key sets.")
+add("C19", "A-product + B-history(files)", "DESIGN.md 2/C19",
+    "exhaustive enumeration of key subsets of generated TOML configurations and of every declared preset field",
+    "Every subset of optional [output]/[input] keys, all <=2 (thorough <=3) removals of [parameters] keys, three input modes, phase lists and fabrics are generated from a complete template "
+    "and parsed; omitted keys must take documented defaults; single-fault configurations must raise ConfigError; every preset declaration is read from the AST and compared.",
+    "Documented defaults quoted from the repository's spec.toml/docstrings.")
+add("C20", "A-product", "DESIGN.md 2/C20",
+    "bounded exhaustive enumeration of sign/zero point letters, orientation x hkl x axes strings, unit vectors, and kernels x data sets x grids",
+    "Conversions on all 26 sign/zero directions x radii plus generic letters; poles on the whole orientation alphabet x hkl x the six axes strings; Lambert on 1392 unit vectors; "
+    "point density on 5 kernels x 14 data sets x 3 grids x weights x axial with permutations and sign flips.",
+    "Kernel formulas of pydrex.stats are trusted for the un-clipped reference (the statement does not define them).")
+
 NOT_YET = {}
 
 def main():
